@@ -513,7 +513,7 @@ def emit_lean(t, outdir):
         chunks = chunked(rows)
         for ci, ch in enumerate(chunks):
             lines.append('def q_%s_units%d : List UnitDecl := [\n%s]' % (q['module'], ci, ',\n'.join(ch)))
-        lines.append('def q_%s : QuantityDecl := { module := %s, name := %s, desc := %s,\n  dim := [%s], kind := %d,\n  units := %s }' % (
+        lines.append('def q_%s : QuantityDecl := {\n  modName := %s, name := %s, desc := %s,\n  dim := [%s], kind := %d,\n  units := %s }' % (
             q['module'], lean_str(q['module']), lean_str(q['name']), lean_str(q['desc']),
             ', '.join(str(d) for d in q['dim']), kind_idx[q['kind']],
             ' ++ '.join('q_%s_units%d' % (q['module'], ci) for ci in range(len(chunks)))))
@@ -544,7 +544,7 @@ def emit_lean(t, outdir):
     lines.append('def prefixes : List (Str × CExpr) := [\n%s]' % ',\n'.join(
         '  (%s, %s)' % (lean_str(p), lean_expr(expand_prefix(t['prefixes'][p], prefixes))) for p in t['prefix_order']))
     s = t['system']
-    lines.append('def system : SystemDecl := { quantities := %s, units := %s,\n  base := [%s] }' % (
+    lines.append('def system : SystemDecl := {\n  quantities := %s, units := %s,\n  base := [%s] }' % (
         lean_str(s['quantities']), lean_str(s['units']),
         ', '.join('{ name := %s, unit := %s, symbol := %s }' % (lean_str(b['name']), lean_str(b['unit']), lean_str(b['symbol']))
                   for b in s['base'])))
